@@ -1,7 +1,7 @@
 (* Properties_C04 — only the current PIN authenticates; PIN changes are exact and lossless.
    PINs are the ghost byte strings of the symbolic model (DESIGN.md §3); statements only. *)
 From Coq Require Import List NArith Bool.
-From SoftHSM Require Import Gen_Const Gen_Pure Defs Core AccessFacts StepFacts Invariants SessionSpec PinFacts.
+From SoftHSM Require Import Gen_Entry EntryModel Gen_Const Gen_Pure Defs Core AccessFacts StepFacts Invariants SessionSpec PinFacts.
 Import ListNotations.
 Local Open Scope N_scope.
 
@@ -75,3 +75,17 @@ Theorem C04_decrypt_needs_only_key : forall (tc tc' : tctx) enc b,
   tc_logged tc = tc_logged tc' -> tc_key tc = tc_key tc' -> tok_decrypt tc enc b = tok_decrypt tc' enc b.
 Proof. exact decrypt_needs_only_key. Qed.
 Print Assumptions C04_decrypt_needs_only_key.
+
+(* ---- the model's decisions are the code's decisions: the return code of the model step equals the REGENERATED C_InitPIN / C_SetPIN
+   (gen/Gen_Entry.v) applied to the abstraction of the model state; the token-level answers (is the old PIN the current one) are the
+   model's set_user_rv / set_so_rv ------------------------------------------------------------------------------------------------- *)
+Theorem C04_initpin_model_is_code : forall (s : state) (h : N) (x : session) (pin : option bytes),
+  st_init s = true -> get_session s h = Some x ->
+  rv_of (snd (step s (OInitPin h pin))) = Some (C_InitPIN.app (initpin_env s h x pin)).
+Proof. exact initpin_model_is_code. Qed.
+Print Assumptions C04_initpin_model_is_code.
+Theorem C04_setpin_model_is_code : forall (s : state) (h : N) (x : session) (t : token) (oldp newp : option bytes),
+  st_init s = true -> get_session s h = Some x -> alookup (s_tok x) (st_tokens s) = Some t ->
+  rv_of (snd (step s (OSetPin h oldp newp))) = Some (C_SetPIN.app (setpin_env s h x t oldp newp)).
+Proof. exact setpin_model_is_code. Qed.
+Print Assumptions C04_setpin_model_is_code.
